@@ -90,6 +90,14 @@ func runC01(c *ev.Ctx) {
 			Method: 5 + k%2, Quality: []float32{90, 92, 95, 99}[r.Intn(4)], Exact: r.Intn(2) == 0}
 		cases = append(cases, ev.Case{Idx: len(cases), Desc: fmt.Sprintf("%+v", e), Data: e})
 	}
+	// more than 100000 pixels in fewer rows (columns) than a host has cores: degenerate row partitions
+	for _, e := range []c01Case{
+		{Class: "pal4", Alpha: "binary", Type: "NRGBA", W: 16000, H: 9, Method: 1, Quality: 50},
+		{Class: "flat", Alpha: "opaque", Type: "NRGBA", W: 8192, H: 15, Method: 0, Quality: 75},
+		{Class: "tiles", Alpha: "gradient", Type: "NRGBA", W: 7, H: 15000, Method: 2, Quality: 30, Exact: true},
+	} {
+		cases = append(cases, ev.Case{Idx: len(cases), Desc: fmt.Sprintf("%+v", e), Data: e})
+	}
 	if c.Thorough() {
 		// thin strips at the dimension limit and a few large pictures
 		extra := []c01Case{
